@@ -149,6 +149,7 @@ type HistResult struct {
 	C27       []MonitorFailure
 	C27Checked int
 	C27Both   int
+	C27Cases  [][2][]*big.Int // model 22 cases
 	C03Checked int
 	C05Checked int
 	C05Cases   [][2][]*big.Int // model 21 cases: (input, observed)
@@ -374,6 +375,21 @@ func genHistory(seed uint64, spec *GenesisSpec, g *genOpts) (*History, *HistResu
 							poolQ = q
 						}
 					})
+				}
+				{
+					// model 22 (coq/Model/FeeRoute.v): the two quotes -> amount and route
+					in := L(Z(0), Z(0), Z(0), Z(0))
+					if resQ != nil {
+						in[0], in[1] = Z(1), resQ
+					}
+					if poolQ != nil {
+						in[2], in[3] = Z(1), poolQ
+					}
+					rt := int64(0)
+					if tr.Tags["tx.commission_conversion"] == "pool" {
+						rt = 1
+					}
+					res.C27Cases = append(res.C27Cases, [2][]*big.Int{in, L(bi(tr.Tags["tx.commission_amount"]), Z(rt))})
 				}
 				if resQ == nil || poolQ == nil {
 					return
